@@ -18,10 +18,54 @@ from checks.c06 import _child, _copy_store, _eq, _short, file_class
 E = scen.EXPECTED
 
 
-def SC(name, setup, actions, expected, final, verify):
+def SC(name, setup, actions, expected, final, verify, order_rule=None):
     """expected[i] = list of allowed values for participant i; final = {(path, view): [allowed values]};
-    verify = [(action, [allowed values])] run afterwards in fresh processes."""
-    return {"name": name, "setup": setup, "actions": actions, "expected": expected, "final": final, "verify": verify}
+    verify = [(action, [allowed values])] run afterwards in fresh processes;
+    order_rule(ops, results) -> (final overrides, [(participant, allowed values)]) decided from the executed operation order."""
+    return {"name": name, "setup": setup, "actions": actions, "expected": expected, "final": final, "verify": verify, "order_rule": order_rule}
+
+
+def _marker_index(ops, who, marker):
+    for i, (c, k, p) in enumerate(ops):
+        if c == who and p.endswith(marker):
+            return i
+    return None
+
+
+def _last_index(ops, who):
+    idx = [i for i, (c, k, p) in enumerate(ops) if c == who]
+    return idx[-1] if idx else None
+
+
+def rule_keep_twice(path, mine, theirs):
+    """Participant 0 keeps `path` twice (marker between), participant 1 keeps other code at the same path. If everything
+    participant 1 did lies before the marker, participant 0's second keep is the latest evaluation: the path serves its value."""
+    def rule(ops, results):
+        m, last1 = _marker_index(ops, 0, "MARK_second_keep"), _last_index(ops, 1)
+        if m is not None and last1 is not None and last1 < m:
+            return {(path, "data"): [mine]}, []
+        first1 = min([i for i, (c, k, p) in enumerate(ops) if c == 1] or [0])
+        last0 = _last_index(ops, 0)
+        if last0 is not None and last0 < first1:
+            return {(path, "data"): [theirs]}, []
+        return {}, []
+    return rule
+
+
+def rule_load_twice(old, new):
+    """Participant 0 loads twice (marker between), participant 1 re-keeps the path with new code. A load that starts after
+    participant 1 finished returns the new value; one that ends before participant 1 starts returns the old one."""
+    def rule(ops, results):
+        m, last1 = _marker_index(ops, 0, "MARK_second_load"), _last_index(ops, 1)
+        first1 = min([i for i, (c, k, p) in enumerate(ops) if c == 1] or [0])
+        a = [old, new]
+        b = [old, new]
+        if m is not None and last1 is not None and last1 < m:
+            b = [new]
+        if m is not None and m < first1:
+            a = [old]
+        return {}, [(0, [(x, y) for x in a for y in b])]
+    return rule
 
 
 def scenarios():
@@ -40,6 +84,13 @@ def scenarios():
         SC("shared-internal-two-views-different-code", [k("/c7/p", "s_text")], [k("/c7/p", "s_text_v2", data="data2"), ld("/c7/p", "data")], [[T2], [T]], {("/c7/p", "data"): [T], ("/c7/p", "data2"): [T2]}, [(k("/c7/p", "s_text_v2", data="data2"), [T2])]),
         SC("same-keep-frame-parquet", [], [k("/c7/f", "s_frame"), k("/c7/f", "s_frame")], [[scen.frame_value()], [scen.frame_value()]], {("/c7/f", "data"): [scen.frame_value()]}, [(k("/c7/f", "s_frame"), [scen.frame_value()])]),
         SC("rekeep-vs-reader-with-object-cache", [k("/c7/p", "s_text", cache=2)], [k("/c7/p", "s_text_v2", cache=2), scen.act_load("/c7/p")], [[T2], [T, T2]], {("/c7/p", "data"): [T2]}, [(k("/c7/p", "s_text_v2", cache=2), [T2])]),
+        # a long-lived store object with the object cache evaluates twice while another process commits other code for the path
+        SC("keep-twice-with-object-cache-vs-keep-new", [], [scen.act_keep_twice("/c7/p", "s_text", cache=2), k("/c7/p", "s_text_v2", cache=2)], [[(T, T)], [T2]], {("/c7/p", "data"): [T, T2]},
+           [(k("/c7/p", "s_text_v2"), [T2])], order_rule=rule_keep_twice("/c7/p", T, T2)),
+        SC("keep-twice-vs-keep-new", [k("/c7/p", "s_text")], [scen.act_keep_twice("/c7/p", "s_text"), k("/c7/p", "s_text_v2")], [[(T, T)], [T2]], {("/c7/p", "data"): [T, T2]},
+           [(k("/c7/p", "s_text_v2"), [T2])], order_rule=rule_keep_twice("/c7/p", T, T2)),
+        SC("load-twice-with-object-cache-vs-rekeep", [k("/c7/p", "s_text")], [scen.act_load_twice("/c7/p", cache=2), k("/c7/p", "s_text_v2")], [[(x, y) for x in (T, T2) for y in (T, T2)], [T2]], {("/c7/p", "data"): [T2]},
+           [(k("/c7/p", "s_text_v2"), [T2])], order_rule=rule_load_twice(T, T2)),
         SC("nested-eval-cold-twice", [], [scen.act_eval_top(), scen.act_eval_top()], [[E["n_top"]], [E["n_top"]]], nested_final, [(scen.act_eval_top(), [E["n_top"]])]),
     ]
 
@@ -67,6 +118,17 @@ def run_one(sc, tmpl, run, workdir, prefix, rep, si):
                     mechanism=kind, features={"switches": sw[:6]})
 
     ok = True
+    final = dict(sc["final"])
+    if sc.get("order_rule"):
+        fo, po = sc["order_rule"](ops, results)
+        final.update(fo)
+        if fo or po:
+            rep.count("executions_decided_by_operation_order")
+        for (pi, allowed) in po:
+            r = results[pi]
+            if r is not None and r["out"][0] == "ok" and not any(_eq(r["out"][1], a) for a in allowed):
+                bad("participant %d (%s) returned %s although the recorded operation order leaves only %d possibilities" % (pi, sc["actions"][pi].__name__, _short(r["out"][1]), len(allowed)), "participant-stale-value")
+                ok = False
     for i, r in enumerate(results):
         rep.count("participant_results")
         if r is None:
@@ -79,7 +141,7 @@ def run_one(sc, tmpl, run, workdir, prefix, rep, si):
             bad("participant %d (%s) returned %s" % (i, sc["actions"][i].__name__, _short(r["out"][1])), "participant-wrong-value")
             ok = False
     # final state, observed by fresh processes
-    for (path, view), allowed in sc["final"].items():
+    for (path, view), allowed in final.items():
         r = core.fork_call(_child, (scen.act_load(path, view), run, None, None, None), timeout=120)
         rep.count("final_loads")
         if isinstance(r, core.JobFailed):
